@@ -9,9 +9,13 @@
    * time reversal squares to (−1)^N                                                     : C09_T_square
   S² (= S₋S₊ + Sz + Sz²) values and conservation under spin-free dynamics are decided by the exact
   correspondence against the Spec operator written in ladder operators.
+   * the sector arithmetic *as it stands in /repo* (`alpha_beta_electrons`, `validate_config`,
+     `get_number_conserving_wavefunction`, `get_spin_conserving_wavefunction`, `map_broken_symmetry`, translated on
+     every run by harness/translate/pyint.py) is the Model's                            : C09_py_*
 -/
 import FqeVerif.Model.Sectors
 import FqeVerif.Spec.Fock
+import FqeVerif.Lemmas.PyInt
 namespace C09
 open Model Fock
 
@@ -142,5 +146,40 @@ theorem C09_T_square (na nb : Nat) :
     have : (na + nb) % 2 = (na % 2 + nb % 2) % 2 := Nat.add_mod _ _ _
     rw [this, ha, hb]
     decide
+
+/-! ### the Python sector arithmetic as it stands in /repo (generated by `harness/translate/pyint.py`) -/
+
+/-- generated `alpha_beta_electrons` followed by generated `validate_config` = `alphaBeta`, refusals included; with
+    `C09_alpha_beta` / `C09_alpha_beta_reject` this states which requests the real constructor accepts -/
+theorem C09_py_alpha_beta (nele ms norb : Int) :
+    (GenPy.alpha_beta_electrons nele ms).bind
+        (fun ab => (GenPy.validate_config ab.1 ab.2 norb).map (fun _ => (ab.1.toNat, ab.2.toNat)))
+      = alphaBeta nele ms norb :=
+  GenPy.py_alpha_beta nele ms norb
+
+/-- generated `get_number_conserving_wavefunction` builds exactly `fixedNSectors` with `broken=['spin']` -/
+theorem C09_py_fixedN (nele norb : Int) :
+    GenPy.get_number_conserving_wavefunction nele norb =
+      ((fixedNSectors nele norb).map (fun x => (x.1, x.2, norb)), ["spin"]) :=
+  GenPy.py_fixedN nele norb
+
+/-- generated `get_spin_conserving_wavefunction` never reads an unbound local and builds exactly `fixedSzSectors`
+    with `broken=['number']` -/
+theorem C09_py_fixedSz (sz norb : Int) :
+    GenPy.get_spin_conserving_wavefunction sz norb =
+      some ((fixedSzSectors sz norb).map (fun x => (x.1, x.2, norb)), ["number"]) :=
+  GenPy.py_fixedSz sz norb
+
+/-- generated `map_broken_symmetry`: exactly the beta particle–hole pairs between the fixed-Sz sectors and the
+    sectors of `norb + s_z` electrons -/
+theorem C09_py_map_broken_symmetry (sz norb : Int) (e : (Int × Int) × (Int × Int)) :
+    e ∈ GenPy.map_broken_symmetry sz norb ↔
+      (e.2.1 = e.1.1 ∧ e.2.2 = norb - e.1.2 ∧ e.1.1 - e.1.2 = sz ∧ e.2.1 + e.2.2 = norb + sz ∧
+        norb + sz - min norb (norb + sz) ≤ e.2.2 ∧ e.2.2 ≤ min norb (norb + sz)) :=
+  GenPy.py_map_broken_symmetry sz norb e
+
+example : GenPy.get_number_conserving_wavefunction 2 2 = ([(2, 2, 2), (2, 0, 2), (2, -2, 2)], ["spin"]) := by decide
+example : GenPy.alpha_beta_electrons 3 1 = some (2, 1) := by decide
+example : GenPy.alpha_beta_electrons 3 2 = none := by decide
 
 end C09
